@@ -151,9 +151,12 @@ func configs(thorough bool) []Config {
 	// its writes leave no trace, and the other sharers can still commit afterwards (the locks are given back)
 	quickCombos = 2
 	add("fatal:inc(x)+assert|inc(x)", -1, false, Script{append(inc(x), assertFails)}, Script{inc(x)})
-	add("fatal:xfer(x,y)+assert|read2(y,x);inc(x)", -1, false, Script{append(xfer(x, y), assertFails)}, Script{read2(y, x), inc(x)})
 	add("fatal:iw(1)+assert|rt;iinc(1)", -1, false, Script{append(iw(1), assertFails)}, Script{rt(), iinc(1)})
-	add("fatal:inc(x);inc(y)+assert|xfer(y,x)", -1, false, Script{inc(x), append(inc(y), assertFails)}, Script{xfer(y, x)})
+	add("fatal:xfer(x,y)+assert|read2(y,x)", -1, true, Script{append(xfer(x, y), assertFails)}, Script{read2(y, x)})
+	if thorough {
+		add("fatal:xfer(x,y)+assert|read2(y,x);inc(x)", -1, false, Script{append(xfer(x, y), assertFails)}, Script{read2(y, x), inc(x)})
+		add("fatal:inc(x);inc(y)+assert|xfer(y,x)", -1, false, Script{inc(x), append(inc(y), assertFails)}, Script{xfer(y, x)})
+	}
 	quickCombos = 0
 	// (2c) sharers wrapped in resources.MakePersistent (in-memory badger): commits go through Persistent.Commit's goroutine
 	persist := func(name string, ctxs ...Script) {
